@@ -194,23 +194,20 @@ def UnitText.kind : UnitText → UnitKind
   | .bit => .bit
   | .B => .byte
 
-/-- the single trailing newline that Python's `$` tolerates -/
-def nlChars (nl : Bool) : List Char := if nl then ['\n'] else []
+/-- with the strict end anchor (`\\Z`, `nlOk = false`) the unit must be the whole rest -/
+theorem lemma_parseUnit_render (u : UnitText) : parseUnit false u.chars = some u.kind := by
+  cases u <;> rfl
 
-theorem lemma_parseUnit_render (u : UnitText) (nl : Bool) :
-    parseUnit (u.chars ++ nlChars nl) = some u.kind := by
-  cases u <;> cases nl <;> rfl
-
-theorem lemma_parseUnit_inv (r : List Char) (k : UnitKind) (h : parseUnit r = some k) :
-    ∃ u nl, r = UnitText.chars u ++ nlChars nl ∧ k = u.kind := by
+theorem lemma_parseUnit_inv (r : List Char) (k : UnitKind) (h : parseUnit false r = some k) :
+    ∃ u, r = UnitText.chars u ∧ k = u.kind := by
   unfold parseUnit at h
   split at h
-  · exact ⟨.b, false, rfl, by simp at h; subst h; rfl⟩
-  · exact ⟨.b, true, rfl, by simp at h; subst h; rfl⟩
-  · exact ⟨.bit, false, rfl, by simp at h; subst h; rfl⟩
-  · exact ⟨.bit, true, rfl, by simp at h; subst h; rfl⟩
-  · exact ⟨.B, false, rfl, by simp at h; subst h; rfl⟩
-  · exact ⟨.B, true, rfl, by simp at h; subst h; rfl⟩
+  · exact ⟨.b, rfl, by simp at h; subst h; rfl⟩
+  · simp at h
+  · exact ⟨.bit, rfl, by simp at h; subst h; rfl⟩
+  · simp at h
+  · exact ⟨.B, rfl, by simp at h; subst h; rfl⟩
+  · simp at h
   · simp at h
 
 /-! ### qemu: character classes and the "(N bytes)" group -/
